@@ -173,7 +173,9 @@ add('C19',
     rule='printf: full directive grid {d,i,u,o,x,X,c,s,p,%} x flag subsets x width x precision x length x boundary values + random multi-directive and positional formats, byte-compared with glibc vsnprintf (C locale) through an exact-size va_list; fmt(): spec grid + random specs vs an independent interpreter of the documented grammar; stack_buffer_logger: Limit in {2,3,8,128} x lengths 0..3*Limit+2',
     jobs=[job('format', 'c19_format.cpp', shards={'quick': 8, 'thorough': 16}, hang_is_violation=True),
           # targets whose plain char is unsigned (AArch64, RISC-V, PowerPC; here: -funsigned-char): hh/char handling must not lean on the host's signedness
-          job('format_unsigned_char', 'c19_format.cpp', defines=['-funsigned-char'], shards={'quick': 4, 'thorough': 8}, quick_args=['--scale', '0.3'], hang_is_violation=True)],
+          job('format_unsigned_char', 'c19_format.cpp', defines=['-funsigned-char'], shards={'quick': 4, 'thorough': 8}, quick_args=['--scale', '0.3'], hang_is_violation=True),
+          # the kernel / soft-float configuration of printf.hpp
+          job('format_no_long_double', 'c19_format.cpp', defines=['-DFRG_DONT_USE_LONG_DOUBLE'], shards={'quick': 4, 'thorough': 8}, quick_args=['--scale', '0.3'], hang_is_violation=True)],
     min_evaluations={'quick': 20000, 'thorough': 200000},
     min_counters={'printf_directives_compared': 300000, 'fmt_specs_compared': 5000, 'logger_messages': 1000},
     assumptions=['glibc 2.36 vsnprintf in the "C" locale is the executable reference for ISO C printf (so the \' flag has no effect); %p is compared in frigg\'s documented 0x<hex> form, which glibc also prints for non-null pointers',
@@ -230,7 +232,9 @@ add('C10',
           job('radix_tsan', 'c10_tsan.cpp', flavour='tsan', shards={'quick': 4, 'thorough': 8}),
           # the same drivers with a trivially destructible payload
           job('radix_sched_trivial_value', 'c10_radix.cpp', defines=['-DC10_TRIVIAL_VALUE'], shards={'quick': 6, 'thorough': 12}),
-          job('radix_tsan_trivial_value', 'c10_tsan.cpp', flavour='tsan', defines=['-DC10_TRIVIAL_VALUE'], shards={'quick': 3, 'thorough': 6})],
+          job('radix_tsan_trivial_value', 'c10_tsan.cpp', flavour='tsan', defines=['-DC10_TRIVIAL_VALUE'], shards={'quick': 3, 'thorough': 6}),
+          # a scalar payload (a pointer per key): the entry is one word, read by find()'s caller with a plain load
+          job('radix_tsan_scalar_value', 'c10_tsan.cpp', flavour='tsan', defines=['-DC10_SCALAR_VALUE'], shards={'quick': 3, 'thorough': 6})],
     min_evaluations={'quick': 5000, 'thorough': 100000},
     min_counters={'schedules': 5000, 'finds_checked': 10000, 'finds_overlapping_a_write': 1000, 'dfs_spaces_exhausted': 5, 'tsan_finds': 100000, 'tsan_tree_lifetimes': 100},
     assumptions=['the controlled scheduler explores sequentially consistent interleavings at the hook points; missing release/acquire edges are observed by ThreadSanitizer on plain node/value fields',
